@@ -57,7 +57,35 @@ fn expect(run: &Run, cnt: &Cnt, key: &str, what: &str, observed: &Value, expecte
     cnt.nontrivial.fetch_add(1, Ordering::Relaxed);
   }
   if got != expected {
+    let mut case = case;
+    if let Some(o) = case.as_object_mut() {
+      o.insert("what".into(), serde_json::Value::String(what.to_string()));
+      o.insert("expected_text".into(), serde_json::Value::String(expected.to_string()));
+    }
     run.violation(key, &format!("{} evaluates to {} but the calendar / time line gives {}", what, got, expected), case);
+  }
+}
+
+/// replay of one recorded case: the recorded FEEL text is evaluated again and rendered as the engine renders it
+pub fn replay_case(case: &serde_json::Value) -> String {
+  let what = case.get("what").and_then(|x| x.as_str()).or_else(|| case.get("text").and_then(|x| x.as_str())).unwrap_or("");
+  let expected = case.get("expected_text").and_then(|x| x.as_str());
+  let mut names = std::collections::BTreeSet::new();
+  if what.contains('.') {
+    for n in ["year", "month", "day", "hour", "minute", "second", "time offset", "timezone", "weekday", "years", "months", "days", "hours", "minutes", "seconds"] {
+      names.insert(n.to_string());
+    }
+  }
+  let ps = crate::rval::parse_scope_of(&names);
+  let v = match dmntk_feel_parser::parse_expression(&ps, what, false).ok().and_then(|n| dmntk_feel_evaluator::evaluate(&Scope::default(), &n).ok()) {
+    Some(v) => v,
+    None => return format!("OBSERVED `{}` is not a FEEL text that can be replayed on its own", what),
+  };
+  let got = show(&v);
+  match expected {
+    Some(e) if e == got => format!("PASS `{}` evaluates to {}", what, got),
+    Some(e) => format!("FAIL `{}` evaluates to {} but the calendar / time line gives {}", what, got, e),
+    None => format!("OBSERVED `{}` evaluates to {}", what, got),
   }
 }
 
